@@ -132,6 +132,16 @@ def _harvest():
         src = open(tf, encoding="utf-8").read()
         for mm in re.finditer(r"\"((?:info|scoreprop|meta|section|snote|note|insertion|sustain|soft|ornament|trill|stime|ptime|hammer_bounce|trailing_played_note)[^\"\n]*?\)\.)\"", src):
             out.append((None, mm.group(1)))
+    # lines of kinds / field values that no fixture contains (written after the format description): ornament lines with one and several
+    # ornament types, durations and offsets whose denominator is 1 inside a tuplet, a sum with such a component
+    out += [("1.0.0", "ornament(n1,[trill])-note(n901,77,192,230,20,0,0)."),
+            ("1.0.0", "ornament(n1,[trill,mordent])-note(n902,78,192,230,20,0,0)."),
+            ("1.0.0", "ornament(1156-1,[trill,mordent,turn])-note(n903,79,192,230,20,0,0)."),
+            ("1.0.0", "snote(n5,[C,n],4,1:1,1/1/3,2/1/3,0.3333,1.0000,[v1,staff1])-deletion."),
+            ("1.0.0", "snote(n6,[D,#],5,2:1,0,1/4+1/1/3,4.0000,5.3333,[v1,staff1])-note(n6,75,480,960,64,0,0)."),
+            ("1.0.0", "snote(n7,[E,b],3,2:2,1/8,1/1/5,5.5000,5.7000,[v2,staff2])-deletion."),
+            ("0.5.0", "snote(n5,[c,n],4,1:1,1/1/3,2/1/3,0.3333,1.0,[s])-deletion."),
+            ("0.3.0", "snote(n5,[c,n],4,1:1,1/1/3,2/1/3,0.3333,1.0,[s])-deletion.")]
     return out
 
 
